@@ -24,7 +24,10 @@ else:
     # engines without an explicit digest: hash of the evidence without timing fields
     for k in ("wall_s",): e.pop(k,None)
     for k in ("runs_per_hour","wall_s","throughput","timing"): c.pop(k,None)
-    print(hashlib.sha256(json.dumps(e,sort_keys=True).encode()).hexdigest()[:16])
+    # C04: the cluster part is nested and carries its own digest (and its own timing fields)
+    nested=c.pop("worker_state_machine_part",None)
+    pre=(nested.get("log_digest","?")+"+") if isinstance(nested,dict) else ""
+    print(pre+hashlib.sha256(json.dumps(e,sort_keys=True).encode()).hexdigest()[:16])
 PY
 )
     d+=("$dig")
